@@ -32,6 +32,8 @@ func transportNoise(s string) bool {
 type vLogSinkT struct {
 	mu          sync.Mutex
 	fetchErrors int64
+	replicaErrs int64
+	replicaMark int64
 	flaps       int64
 	mark        int64
 	alive       map[string]bool
@@ -43,6 +45,12 @@ var vLogSink = &vLogSinkT{alive: map[string]bool{}}
 func (s *vLogSinkT) Write(p []byte) (int, error) {
 	if bytes.Contains(p, []byte("Failed to fetch data")) {
 		atomic.AddInt64(&s.fetchErrors, 1)
+	}
+	// a replica write or replica delete that failed (time-out on a busy machine): with WriteQuorum 1 the operation
+	// is acknowledged all the same, with one copy fewer - the cluster was not healthy at that moment
+	if bytes.Contains(p, []byte("Failed to call put command on")) || bytes.Contains(p, []byte("Failed to delete replica")) ||
+		bytes.Contains(p, []byte("Failed to create replica")) {
+		atomic.AddInt64(&s.replicaErrs, 1)
 	}
 	if i := bytes.Index(p, []byte("Node left: ")); i >= 0 {
 		f := strings.Fields(string(p[i+len("Node left: "):]))
@@ -79,6 +87,12 @@ func vMarkCase() {
 	vLogSink.mu.Lock()
 	vLogSink.mark = vLogSink.flaps
 	vLogSink.mu.Unlock()
+	atomic.StoreInt64(&vLogSink.replicaMark, atomic.LoadInt64(&vLogSink.replicaErrs))
+}
+
+// vReplicaErrorsSinceMark: replica writes / deletes that failed since the current case obtained its cluster.
+func vReplicaErrorsSinceMark() int64 {
+	return atomic.LoadInt64(&vLogSink.replicaErrs) - atomic.LoadInt64(&vLogSink.replicaMark)
 }
 
 func vFlapsSinceMark() int64 {
